@@ -96,6 +96,12 @@ theorem C12_binary_parse_is_canonical (s bs : List Nat) (h : binParse s = some b
     binText bs = s ∧ Bytes bs :=
   Base64.encode_decode s bs h
 
+/-- the text of a binary: four characters per started group of three bytes, each printable ASCII in `+`..`z`
+    other than `\\` (so neither a JSON string nor a header value has to escape it) -/
+theorem C12_binary_text_shape (bs : List Nat) :
+    (binText bs).length = 4 * ((bs.length + 2) / 3) ∧ ∀ c ∈ binText bs, Base64.PlainChar c :=
+  Base64.encode_shape bs
+
 /-- no two texts parse to the same binary value -/
 theorem C12_binary_parse_injective (s t bs : List Nat) (hs : binParse s = some bs) (ht : binParse t = some bs) :
     s = t :=
